@@ -447,8 +447,15 @@ func checkOversizeHandler(c *report.Ctx) {
 // and the buffer is only ever filled, measured and read.
 func checkEventBuffer(c *report.Ctx, clauseLimit bool) {
 	T := "L/rapi/rendering.InvokeRenderer"
-	f := fn(c, "L/rapi/rendering", "(*InvokeRenderer).bufferInvokeRequest")
+	// the method of the renderer that fills the request buffer, whatever it is called
+	var f *ssa.Function
+	for _, m := range methodsOf(c, "L/rapi/rendering", "InvokeRenderer") {
+		if len(an.CallsTo(m, "bytes.Buffer.ReadFrom")) > 0 {
+			f = m
+		}
+	}
 	if f == nil {
+		c.Unresolved("ANCHOR", "L/rapi/rendering.InvokeRenderer/fills-request-buffer", "no method of InvokeRenderer reads the event into the request buffer")
 		return
 	}
 	name := an.FuncName(f)
